@@ -389,4 +389,60 @@ decrement still happens only for `c ≥ 0`, so it cannot overflow either. -/
 theorem ifcase_ge_mutant_equivalent (c : Int) (j k : Nat) : ifcaseLoopGe c j k = ifcaseLoop c j k :=
   ifcaseLoopGe_eq k c j
 
+/-! ## The gutter of rendered error blocks -/
+
+/-- With a printer sized from the block's own line number, no line of the block underflows the
+padding, for every line number: the header is indented by `digits − 1`, the empty `|` lines by
+`digits`, and the source line (margin = the number) by 0 — so the `saturating_sub` of the code
+never saturates and the three kinds of line put their separator in the same column. -/
+theorem gutter_total (n : Nat) :
+    headerPad n = some (digits n - 1) ∧ blankPad n = some (digits n) ∧ sourcePad n = some 0 := by
+  have h := digits_pos n
+  unfold headerPad blankPad sourcePad gutterPad printerWidth
+  refine ⟨?_, ?_, ?_⟩
+  · rw [if_pos (by omega), if_pos (by omega)]; first | (congr 1; omega) | congr 1
+  · rw [if_pos (by omega), if_pos (by omega)]; first | (congr 1; omega) | congr 1
+  · rw [if_pos (by omega), if_pos (by omega)]; first | (congr 1; omega) | congr 1
+
+/-- The saturating computation of the code is the plain one (whenever the plain one is defined). -/
+theorem gutter_never_saturates (width adj marginLen p : Nat) (h : gutterPad width adj marginLen = some p) :
+    gutterPadSat width adj marginLen = p := by
+  unfold gutterPad at h
+  split at h
+  · split at h
+    · simp only [Option.some.injEq] at h; unfold gutterPadSat; omega
+    · simp at h
+  · simp at h
+
+/-- A printer shared between blocks is safe exactly when the other block's line number has no
+more digits than the one it was sized from … -/
+theorem shared_gutter_iff (e c : Nat) : sharedSourcePad e c ≠ none ↔ digits c ≤ digits e := by
+  unfold sharedSourcePad gutterPad printerWidth
+  rw [if_pos (by omega)]
+  constructor
+  · intro h
+    by_cases hc : digits c + 1 ≤ digits e + 1 - 0
+    · omega
+    · rw [if_neg hc] at h; exact absurd rfl h
+  · intro h
+    rw [if_pos (by omega)]
+    simp
+
+/-- … so the seeded change C09-r4-3 underflows for an error token on line 1 and a command on
+line 10 ("attempt to subtract with overflow"). -/
+theorem sharedGutter_underflows : sharedSourcePad 1 10 = none := by
+  have h1 : digits 1 = 1 := by rw [digits]; simp
+  have h10 : digits 10 = 2 := by rw [digits]; simp [h1]
+  cases h : sharedSourcePad 1 10 with
+  | none => rfl
+  | some p =>
+    have := (shared_gutter_iff 1 10).mp (by rw [h]; simp)
+    omega
+
+example : headerPad 7 = some 0 ∧ blankPad 7 = some 1 ∧ sourcePad 7 = some 0 := by
+  have h7 : digits 7 = 1 := by rw [digits]; simp
+  have := gutter_total 7
+  rw [h7] at this
+  exact this
+
 end C09
